@@ -1,7 +1,8 @@
 import GlmVerif.Spec.C10
-import GlmVerif.Gen.C10
-/-! table check of family `divmm` against the model generated from /repo (kernel evaluation) -/
+import GlmVerif.Gen.C10.divmm
+/-! table check of family `divmm` against the model of its units generated from /repo (kernel evaluation) -/
 namespace Glm.Props.C10
 open Glm Glm.Spec.C10 Glm.Gen.C10
-theorem divmm_ok : f_divmm.ok lookup = true := by decide +kernel
+set_option maxHeartbeats 4000000 in
+theorem divmm_ok : f_divmm.ok (fun _ ks => divmm_L ks) = true := by decide +kernel
 end Glm.Props.C10
